@@ -224,7 +224,8 @@ func (sc *sliceContainers) Update(key uint64, fn func(*Container, bool) (*Contai
 		// don't expand the slice just to add a nil container, we
 		// could return that anyway
 		if write && nc != nil {
-			sc.insertAt(key, nc, -i-1)
+			// seek already returned the insertion point.
+			sc.insertAt(key, nc, i)
 		}
 	}
 }
